@@ -48,3 +48,14 @@ Theorem C07_certified_no_any_size :
   cfg_want_sub cfg = true -> ~ TUmx (mx_of m n M).
 Proof. exact tu_cert_no_sound. Qed.
 Print Assumptions C07_certified_no_any_size.
+
+(* ---------- the judge accepts EXACTLY the records that satisfy its specification: besides soundness (above) also completeness,
+   i.e. a record of a correct answer is never rejected (JudgeComplete1.v) ---------- *)
+From Cmr Require JudgeComplete1.
+Theorem C07_judge_tu_cert_accepts_exactly_the_specification :
+    forall (rec cfg : list Z) (m n : nat) (M : mat) (rc v : Z) (sub : option (list nat * list nat))
+    (rest : list Z),
+    TuJudgeProofs.tu_input rec = Some (cfg, (m, n, M), rc, v, sub, rest) ->
+    TuModel.judge_tu_cert rec = 0%Z <-> JudgeComplete1.tu_cert_spec cfg m n M rc v sub.
+Proof. exact JudgeComplete1.judge_tu_cert_iff. Qed.
+Print Assumptions C07_judge_tu_cert_accepts_exactly_the_specification.
